@@ -188,8 +188,22 @@ func wireItem(b []byte) Sx {
 var msgCounter int
 var msgCounterMu spin
 
-func buildMsg(kind string) *quickfix.Message {
-	m := quickfix.NewMessage()
+// buildMsg fills a message of the given kind.  With own != nil the application thread keeps ONE Message object and
+// re-fills it for every send (clear, set the fields again), as an application that re-sends an order object does; what
+// the engine made of the earlier sends (queued, stored or written bytes) must not depend on the object's later life.
+func buildMsg(kind string, own **quickfix.Message) *quickfix.Message {
+	var m *quickfix.Message
+	if own != nil && *own != nil {
+		m = *own
+		m.Header.Clear()
+		m.Body.Clear()
+		m.Trailer.Clear()
+	} else {
+		m = quickfix.NewMessage()
+		if own != nil {
+			*own = m
+		}
+	}
 	msgCounterMu.Lock()
 	msgCounter++
 	id := msgCounter
@@ -253,7 +267,9 @@ func newRig(w *world, persist, logged, open bool) *rig {
 	return r
 }
 
-func (r *rig) doOp(op Sx) {
+func (r *rig) doOp(op Sx) { r.doOpOwn(op, nil) }
+
+func (r *rig) doOpOwn(op Sx, own **quickfix.Message) {
 	if a, ok := op.(Atom); ok {
 		switch string(a) {
 		case "dropreset":
@@ -276,11 +292,11 @@ func (r *rig) doOp(op Sx) {
 	l := op.(List)
 	switch AtomSym(l[0]) {
 	case "q":
-		r.sess.VerifConcQueueForSend(buildMsg(AtomSym(l[1])))
+		r.sess.VerifConcQueueForSend(buildMsg(AtomSym(l[1]), own))
 	case "send":
-		r.sess.VerifConcSendInReplyTo(buildMsg(AtomSym(l[1])))
+		r.sess.VerifConcSendInReplyTo(buildMsg(AtomSym(l[1]), own))
 	case "dropsend":
-		r.sess.VerifConcDropAndSend(buildMsg(AtomSym(l[1])))
+		r.sess.VerifConcDropAndSend(buildMsg(AtomSym(l[1]), own))
 	case "resend":
 		rejs := map[int]bool{}
 		for _, x := range l[3].(List) {
@@ -309,12 +325,18 @@ func execSched(cfg Sx, threadsSx Sx, choose chooser) (schedule []int, obs Sx) {
 
 	w := newWorld()
 	r := newRig(w, persist, logged, open)
-	for _, t := range threads {
+	for ti, t := range threads {
 		ops := t.(List)
+		reuse := ti%2 == 0 // every other thread re-fills one Message object for all its sends
 		w.spawn(func(th *thread) {
+			var mine *quickfix.Message
 			for _, op := range ops {
 				w.yield("start")
-				r.doOp(op)
+				if reuse {
+					r.doOpOwn(op, &mine)
+				} else {
+					r.doOp(op)
+				}
 			}
 		})
 	}
